@@ -85,7 +85,7 @@ prop('C05',
 
 prop('C06',
      level='other',
-     units=['bycycle.burst.cycle.detect_bursts_cycles', CF],
+     units=['bycycle.burst.cycle.detect_bursts_cycles', CF, 'bycycle.burst.utils.check_min_burst_cycles'],
      lemmas=['minrun_monotone'],
      jobs=['detect_bursts_cycles', 'pipeline:C06', 'armed'],
      unit_jobs={'bycycle.burst.cycle.detect_bursts_cycles': ['detect_bursts_cycles']},
@@ -97,7 +97,8 @@ prop('C06',
 
 prop('C07',
      level='other',
-     units=[F + 'burst.compute_burst_fraction', F + 'burst.compute_burst_features', 'bycycle.burst.amp.detect_bursts_amp', CF],
+     units=[F + 'burst.compute_burst_fraction', F + 'burst.compute_burst_features', 'bycycle.burst.amp.detect_bursts_amp', CF,
+            'bycycle.burst.utils.check_min_burst_cycles'],
      lemmas=['minrun_monotone'],
      jobs=['detect_bursts_amp', 'pipeline:C07', 'armed'],
      unit_jobs={'bycycle.burst.amp.detect_bursts_amp': ['detect_bursts_amp']},
